@@ -1300,7 +1300,10 @@ class CodeBuilder:
         ):
             return repr(value)
         elif isinstance(value, tuple) and not is_named_tuple(type(value)):
-            return repr(value)
+            items = "".join(
+                f"{self.get_field_default_literal(item)}, " for item in value
+            )
+            return f"({items})"
         else:
             name = f"v_{uuid.uuid4().hex}"
             self.ensure_object_imported(value, name)
